@@ -14,7 +14,7 @@ RULE = ("complete enumeration of the listed space: image lengths 0..300 and {511
         "tape names of every length 0..16 (ASCII and Cyrillic) x {raw, bin, wav, turbo wav} through the format writers, and through the "
         "command line every output selector (-o f.bin, -o f.BIN, -o f, -o dir/f.bin, --implicit-bin with .mac/.MAC/no suffix, make_bin/"
         "make_raw/make_wav/make_turbo_wav without path, with relative path, into a sub-directory, from a source in a sub-directory, "
-        "several directives at once, several tapes with different names). Every written file is read back by independent readers "
+        "several directives at once, several tapes with different names, '-' as source (standard input) and '-', '-.bin', '-.raw' as -o target (standard output)). Every written file is read back by independent readers "
         "(pdpmc/ref/tape.py): raw = bytes, bin = base,length,bytes, WAV = well-formed RIFF whose demodulated stream is header(base, "
         "length, 16-byte padded name), bytes, end-around-carry checksum. Non-trivial = distinct (format, image, name) or (selector, "
         "layout) case")
@@ -24,7 +24,7 @@ BASES = [0, 0o1000, 0o100000, 0o177776]
 
 
 def bound(tier):
-    return "complete for the listed product (lengths 0..300 + 6 large, 10 content families, 4 bases, 34 names, 4 formats); 60 CLI layouts"
+    return "complete for the listed product (lengths 0..300 + 6 large, 10 content families, 4 bases, 34 names, 4 formats); %d CLI layouts (incl. standard input/output)" % len(CLI_LAYOUTS)
 
 
 def content(family, n):
@@ -182,6 +182,16 @@ CLI_LAYOUTS = [
     ({"a.mac": SRC}, ".", ["a.mac", "-o", "out.bin", "--charset", "koi8-r"], {"out.bin": ("bin", None)}),
     ({"a.mac": SRC + "make_wav \"t.wav\", \"ИМЯ\"\n"}, ".", ["a.mac", "--charset", "koi8-r"], {"t.wav": ("bk_wav", ("koi8-r", "ИМЯ"))}),
     ({"a.mac": SRC + "make_wav \"t.wav\", \"ИМЯ\"\n"}, ".", ["a.mac", "--charset", "utf-8"], {"t.wav": ("bk_wav", ("utf-8", "ИМЯ"))}),
+    # standard output as the output "path" and standard input as the source
+    ({"a.mac": SRC}, ".", ["a.mac", "-o", "-"], {"<stdout>": ("raw", None)}),
+    ({"a.mac": SRC}, ".", ["a.mac", "-o-.bin"], {"<stdout>": ("bin", None)}),
+    ({"a.mac": SRC}, ".", ["a.mac", "-o-.raw"], {"<stdout>": ("raw", None)}),
+    ({"a.mac": SRC + "make_bin \"m.bin\"\n"}, ".", ["a.mac", "-o", "-"], {"<stdout>": ("raw", None), "m.bin": ("bin", None)}),
+    ({"keep": ""}, ".", ["-", "-o", "out.bin"], {"out.bin": ("bin", None)}, SRC),
+    ({"keep": ""}, ".", ["-", "-o-.bin"], {"<stdout>": ("bin", None)}, SRC),
+    ({"keep": ""}, ".", ["-", "--implicit-bin"], {"stdin.bin": ("bin", None)}, SRC),
+    ({"b.mac": "\t.word 1, 2, 3\n\t.byte 7\n"}, ".", ["-", "b.mac", "-o", "out.bin"], {"out.bin": ("bin", None)}, "\t.link 1000\nstart:\tmov #start, r0\n"),
+    ({"a.mac": "\t.link 1000\nstart:\tmov #start, r0\n"}, ".", ["a.mac", "-", "--implicit-bin"], {"a.bin": ("bin", None)}, "\t.word 1, 2, 3\n\t.byte 7\n"),
 ]
 
 
@@ -228,20 +238,34 @@ def check(case, r, tier):
         check_format(r, case["fmt"], case["base"], data, _p(case["name"]), None, case)
         return
     if k == "cli":
-        tree, cwd, argv, want = CLI_LAYOUTS[case["i"]]
-        run_cli(r, tree, cwd, argv, want, 0o1000, IMG, ("cli", case["i"]))
+        tree, cwd, argv, want = CLI_LAYOUTS[case["i"]][:4]
+        run_cli(r, tree, cwd, argv, want, 0o1000, IMG, ("cli", case["i"]), stdin_text=(CLI_LAYOUTS[case["i"]] + ("",))[4])
         return
+    if k == "cli-layout":
+        # replay of one recorded layout
+        want = {p: tuple(tuple(x) if isinstance(x, list) else x for x in v) for p, v in case["want"].items()}
+        run_cli(r, case["tree"], case["cwd"], case["argv"], want, case.get("base", 0o1000), bytes.fromhex(case["image"]) if "image" in case else IMG,
+                None, stdin_text=case.get("stdin", ""))
+        return
+    raise AssertionError("unknown case kind %r" % k)
 
 
-def run_cli(r, tree, cwd, argv, want, base, image, key):
-    out = driver.cli(argv, tree, cwd=cwd, keep=True)
-    case = {"k": "cli-layout", "tree": tree, "cwd": cwd, "argv": argv, "want": {p: list(v) if isinstance(v, tuple) else v for p, v in want.items()}}
+def run_cli(r, tree, cwd, argv, want, base, image, key, stdin_text=""):
+    out = driver.cli(argv, tree, cwd=cwd, keep=True, stdin_text=stdin_text)
+    case = {"k": "cli-layout", "tree": tree, "cwd": cwd, "argv": argv, "stdin": stdin_text, "base": base, "image": image.hex(), "want": {p: list(v) if isinstance(v, tuple) else v for p, v in want.items()}}
     try:
         probs = []
         if out.exit != 0:
             probs.append(("cli-exit", "exit status %r, stderr: %s" % (out.exit, out.stderr[-300:])))
         created = set(out.created())
+        if "<stdout>" not in want and out.stdout:
+            probs.append(("unexpected-stdout", "%d bytes were written to standard output although no output was directed there" % len(out.stdout)))
         for path, (fmt, nm) in want.items():
+            if path == "<stdout>":
+                p = judge_blob(fmt, out.stdout, base, image, None)
+                if p:
+                    probs.append((p[0], "standard output: %s" % p[1]))
+                continue
             if path not in created:
                 probs.append(("file-not-at-stated-path", "no file %s was written (created: %s)" % (path, sorted(created))))
                 continue
@@ -253,7 +277,7 @@ def run_cli(r, tree, cwd, argv, want, base, image, key):
             p = judge_blob(fmt, blob, base, image, name16)
             if p:
                 probs.append((p[0], "%s: %s" % (path, p[1])))
-        extra = created - set(want)
+        extra = created - set(want) - {"keep"}
         if extra:
             probs.append(("unexpected-file", "files nobody asked for were written: %s" % sorted(extra)))
         if out.modified() or out.deleted():
